@@ -14,7 +14,7 @@ from .. import gen as G
 from .. import harness as H
 from .. import shapes as S
 from .. import unions as U
-from ..common import NCPU, WORK, Check, Inconclusive, digest, log, rng_for
+from ..common import NCPU, REPO, WORK, Check, Inconclusive, digest, log, rng_for
 
 PROP = "C17"
 
@@ -469,6 +469,42 @@ def rank_edge_inputs():
     return out
 
 
+def helper_string_forms():
+    """string-valued arguments that contain the macro's own helper names and that do or do not lex as tokens (unbalanced
+    delimiters, unterminated comments / strings): the search for a fresh helper name reads these strings"""
+    import glob
+    names = set()
+    for f in glob.glob(os.path.join(REPO, "src", "**", "*.rs"), recursive=True):
+        try:
+            names.update(re.findall(r"Educe__[A-Za-z]+", open(f).read()))
+        except OSError:
+            pass
+    names = sorted(names | {"Educe__RawString", "Educe__DebugField"})
+    strings = []
+    for nm in names:
+        strings += ['"%s::fmt("' % nm, '"%s)"' % nm, '"/* %s"' % nm, '"\\"%s"' % nm, '"%s"' % nm, '"%s_::<H>::f"' % nm, '"[%s_"' % nm]
+    strings += ['"H::hash("', '"HH}"', '"\'"']
+    out = []
+    n = 0
+    for t in ALLT:
+        plain = "Into(u8)" if t == "Into" else t
+        uns = "%s(unsafe)" % t if t in ("Debug", "PartialEq", "Hash") else plain
+        for st in strings:
+            for key in ["%s = {S}", "%s(method = {S})", "%s(name = {S})", "%s(bound = {S})", "%s(expression = {S})", "%s(u8, method = {S})"]:
+                if key.startswith("%s(u8") and t != "Into":
+                    continue
+                f = (key % t).format(S=st)
+                for c in ["#[derive(Educe)] #[educe(%s)] struct S<T> { a: T, b: u8 }" % f,
+                          "#[derive(Educe)] #[educe(%s)] struct S<T> { #[educe(%s)] a: T, b: u8 }" % (plain, f),
+                          "#[derive(Educe)] #[educe(%s)] enum E<T> { #[educe(%s)] V(T, u8), W { x: u8 } }" % (plain, f),
+                          "#[derive(Educe)] #[educe(%s)] enum E<T> { V(T, #[educe(%s)] u8), W { x: u8 } }" % (plain, f),
+                          "#[derive(Educe)] #[educe(%s)] enum E<T> { A { #[educe(%s)] x: T }, B }" % (plain, f),
+                          "#[derive(Educe)] #[educe(%s)] union U { #[educe(%s)] a: u8, b: u16 }" % (uns, f)]:
+                    out.append(("z%d" % n, c))
+                    n += 1
+    return out
+
+
 def gen_inputs(seed, n):
     base = []
     k = 0
@@ -545,10 +581,24 @@ def main(tier, seed, scale=1.0):
     inputs = uniq
     texts = dict(inputs)
     res = B.run_inproc(inputs, items=False, timeout=300)
-    dbg_sample = [c for i, c in enumerate(inputs) if i % 10 == 0 or c[0].startswith("h")]
+    # the helper-name strings run apart with a short batch timeout (a clean batch needs about a second): a hang there must not
+    # cost 300 s per input; whatever does not finish is re-run in isolation below like every slow input (at most three of them)
+    hs = [("h" + cid, t) for cid, t in helper_string_forms()]
+    hs = [(cid, t) for cid, t in hs if digest(t) not in seen]
+    res_hs = B.run_inproc(hs, items=False, timeout=40)
+    hs_slow = sorted(cid for cid, t in hs if (res_hs.get(cid) or {}).get("st") == "timeout")
+    for cid, t in hs:
+        texts[cid] = t
+        if cid not in hs_slow:
+            res[cid] = res_hs.get(cid)
+    res.update({cid: res_hs[cid] for cid in hs_slow[:3]})
+    inputs = inputs + [(cid, t) for cid, t in hs if cid not in hs_slow[3:]]
+    chk.extra["helper_string_inputs"] = len(hs)
+    hung = set(hs_slow[3:])
+    dbg_sample = [c for i, c in enumerate(inputs) if (i % 10 == 0 or c[0].startswith("h")) and c[0] not in hs_slow]
     res_dbg = B.run_inproc(dbg_sample, items=False, profile="debug", timeout=300)
     # educe's `full` feature switches syn to its complete expression grammar: other parse paths
-    full_sample = [c for i, c in enumerate(inputs) if i % 5 == 1 or c[0].startswith("h")]
+    full_sample = [c for i, c in enumerate(inputs) if (i % 5 == 1 or c[0].startswith("h")) and c[0] not in hs_slow]
     res_full = B.run_inproc(full_sample, items=False, full=True, timeout=300)
     full_candidates = [cid for cid, t in full_sample if (res_full.get(cid) or {}).get("st") in ("panic", "crash", "timeout")]
     candidates = []
@@ -576,12 +626,15 @@ def main(tier, seed, scale=1.0):
         if r.get("st") == "timeout":
             chk.violation("hang|" + digest(texts[cid]), "expansion of an isolated input does not finish within 60 s\n%s"
                           % texts[cid][:3000], {"input.rs": texts[cid]})
+            hung.add(cid)
         elif r.get("st") == "crash":
             candidates.append((cid, "crash", r.get("msg", "")))
     # D1: all candidates + a seeded sample
     rng = rng_for(seed, PROP, "d1")
     cand_ids = sorted({c[0] for c in candidates})
-    rest = [c for c, _ in inputs if c not in set(cand_ids)]
+    # (an input whose expansion does not finish never goes to rustc: the compiler would not come back either)
+    cand_ids = [c for c in cand_ids if c not in hung]
+    rest = [c for c, _ in inputs if c not in set(cand_ids) and c not in hung]
     rng.shuffle(rest)
     d1_ids = cand_ids + [c for c in rest if c.startswith("h")] + [c for c in rest if not c.startswith("h")][:n_d1]
     d1_cases = [(c, texts[c]) for c in d1_ids]
